@@ -273,6 +273,19 @@ theorem gen_cmp_int64_decr (a b : Int64) :
   have h : qsort_LDecreasing a b = qsort_IDecreasing a b := rfl
   rw [h]; simpa only [Int64.lt_iff_toInt_lt] using Vec.cmp_decr_spec a b
 
+/-- why the comparators must be the three-way `if`: the idiom `return x1 - x2;` (gcc semantics: wrap-around at the element width, then
+    truncation to `int`) is the difference of the values only inside a 2^31-wide window; outside it the sign is wrong (`int`) or the
+    result is 0 for different entries (`int64_t`).  A tree whose comparators are written that way is translated to exactly these terms,
+    and `gen_cmp_int` … `gen_LSortDecreasing` no longer check. -/
+theorem cmp_sub_idiom_window (a b : Int32) (c d : Int64) (h : -2147483648 ≤ a.toInt - b.toInt ∧ a.toInt - b.toInt ≤ 2147483647)
+    (h' : -2147483648 ≤ c.toInt - d.toInt ∧ c.toInt - d.toInt ≤ 2147483647) :
+    Vec.CWrap.toCInt (Vec.CWrap.wsub a b) = a.toInt - b.toInt ∧ Vec.CWrap.toCInt (Vec.CWrap.wsub c d) = c.toInt - d.toInt :=
+  ⟨Vec.sub_idiom_window_int a b h, Vec.sub_idiom_window_int64 c d h'⟩
+theorem cmp_sub_idiom_wrong :
+    (∃ a b : Int32, a < b ∧ 0 < Vec.CWrap.toCInt (Vec.CWrap.wsub a b)) ∧ (∃ a b : Int64, a < b ∧ Vec.CWrap.toCInt (Vec.CWrap.wsub a b) = 0) :=
+  ⟨Vec.sub_idiom_wrong_int, Vec.sub_idiom_wrong_int64⟩
+example : -2147483648 ≤ (5 : Int32).toInt - (7 : Int32).toInt ∧ (5 : Int32).toInt - (7 : Int32).toInt ≤ 2147483647 := by decide
+
 /-- `esl_vec_{I,L,D,F}Sort{Increasing,Decreasing}`: an ordered permutation, for every vector (`ℝ` for the floating routines) -/
 theorem gen_ISortIncreasing (v : Array Int32) :
     ∃ w, esl_vec_ISortIncreasing v v.size = some w ∧ w.toList.Perm v.toList ∧ w.toList.Pairwise (· ≤ ·) := Vec.gen_sortIncreasing v
